@@ -14,7 +14,7 @@ func init() { registry["C12"] = checkC12 }
 
 func checkC12(c *Check) {
 	c.Expl = "Structural clauses of 'a Text is a sequence of Unicode code points', decided on clang's AST of the C runtime: the UTF-8 lead-byte/continuation predicates and the length tables use exactly UTF-8's masks and thresholds (R12.3); any hand-written decoder combines bytes with UTF-8's masks and shifts, the default being delegation to the C library (R12.4); producers that change a text's byte length in place keep cap = byte length + 1 (R12.1) and never overwrite bytes before moving them (R12.5); text equality compares exactly the length its guard tested (R12.2). Not decided: indexing/slicing walks (value-dependent), conversions between Text and numbers, the generator's for-each lowering."
-	P, err := LoadC(repoDir(), false)
+	P, err := LoadC(repoDirC(), false)
 	if err != nil {
 		c.Rule("R12.0", "C sources parse", 1).Und("lib/runtime", token.NoPos, err.Error())
 		return
